@@ -28,6 +28,9 @@ LAYOUTS: dict[str, list[tuple[str, list[str] | None, str]]] = {
     "wildcard_stop": [("h_any", None, "stop")],
     "wildcard_raises": [("h_any", None, "raise")],
     "scoped_raises+wildcard": [("h_a", ["bad_a"], "raise"), ("h_any", None, "reenter")],
+    # one lineage alternates between two handlers: a fails -> h_a emits B -> b fails -> h_b emits A -> ...
+    "ping_pong_scoped": [("h_a", ["bad_a"], "other"), ("h_b", ["bad_b"], "other")],
+    "ping_pong_scoped+wildcard": [("h_b", ["bad_b"], "other"), ("h_any", None, "other")],
 }
 
 
@@ -66,6 +69,9 @@ def build(layout: str, budget: int, lineages: int, with_retry: bool, disable_val
                 raise LookupError(f"{name} failed")
             if behaviour == "stop":
                 return StopEvent(result=f"{name} recovered {ev.step_name}")
+            if behaviour == "other":  # hop to the other failing step, same lineage, next generation
+                other = B if isinstance(ev.input_event, A) else A
+                return other(uid=getattr(ev.input_event, "uid", 0) + 100)
             # re-enter: same lineage, next generation
             return type(ev.input_event)(uid=ev.input_event.uid + 100) if hasattr(ev.input_event, "uid") else A(uid=999)
 
@@ -158,7 +164,7 @@ def _check_against_reference(obs: dict[str, Any], layout: str, budget: int, line
     if (obs["stuck"] or obs["capped"]) and obs["outcome"] == "pending":
         v.append(("run_never_finishes", w, f"stuck={obs['stuck']} capped={obs['capped']}: {_short(obs)}"))
         return
-    if owner is None or behaviour.get(owner) == "reenter":
+    if owner is None or behaviour.get(owner) in ("reenter", "other"):
         # no owner, or the lineage keeps re-entering until the budget is exhausted: the run fails with the
         # ORIGINAL exception of the failing step and a WorkflowFailedEvent for it
         if obs["outcome"] != "exception" or obs["exc_type"] != "RuntimeError" or f"{failing_step} failed" not in obs["value"]:
